@@ -247,6 +247,24 @@ JudgeDelete(S, O, i, n, erase) ==
      \cup If(\E j \in 1..Len(O.feats) : O.feats[j].label \notin Labels(S), V("count", "-"))
      \cup UNION {IF S.feats[j].wf THEN rule(S.feats[j]) ELSE {} : j \in 1..Len(S.feats)}
 
+\* Coordinate-bearing metadata follows a (forward) slice: every REFERENCE base
+\* range is clipped to the window and re-based, a reference none of whose ranges
+\* meets the window is dropped, references without base ranges are kept, and
+\* the survivors are numbered 1..k in their old order.
+RefRule(S, O, a1, b1) ==
+  LET refs == S.raw.refs
+      meets(x) == a1 < b1 /\ IMax(x[1], a1) < IMin(x[2], b1)
+      want(r) == LET ol == SelectSeq(r.ranges, meets)
+                 IN [j \in 1..Len(ol) |-> <<IMax(ol[j][1], a1) - a1, IMin(ol[j][2], b1) - a1>>]
+      kept == SelectSeq(refs, LAMBDA r : ~r.ranged \/ want(r) # <<>>)
+      got == O.raw.refs
+  IN If(Len(got) # Len(kept), V("refs-count", "-"))
+     \cup (IF Len(got) # Len(kept) THEN {} ELSE
+          UNION {If(got[j].num # j, V("refs-number", ToString(j)))
+                 \cup If(kept[j].ranged /\ (~got[j].ranged \/ got[j].ranges # want(kept[j])), V("refs-range", ToString(j)))
+                 \cup If(~kept[j].ranged /\ got[j].info # kept[j].info, V("refs-info", ToString(j)))
+                : j \in 1..Len(kept)})
+
 IsFullLength(f, R) == Len(FDen(f)) = Len(R.ids) /\ FIds(f) = SeqToSet(R.ids) /\ Len(R.ids) > 0
 
 JudgeSlice(S, O, a, b) ==
@@ -281,6 +299,7 @@ JudgeSlice(S, O, a, b) ==
   IN ResRule(O, ids2, byt2)
      \cup AllWFx(O, skip \cup Ill(S))
      \cup If(O.topo \notin {"linear", "na"}, V("topo", "-"))
+     \cup (IF wrap \/ S.topo = "na" THEN {} ELSE RefRule(S, O, a1, b1))
      \cup If(\E j \in 1..Len(O.feats) : O.feats[j].label \notin Labels(S), V("count", "-"))
      \cup UNION {IF S.feats[j].wf THEN rule(S.feats[j]) ELSE {} : j \in 1..Len(S.feats)}
 
